@@ -24,6 +24,23 @@ async fn new_shell() -> Option<brush_core::Shell> {
         .ok()
 }
 
+/// Wall-clock budget of one awaited operation (launch, `wait %..`, `wait_all`): an operation that does not return
+/// within it is a result value (`!timeout:<op>`), not a hang of the harness.
+const OP_BUDGET_SECS: u64 = 8;
+
+/// Runs `f` under the budget; `None` when the budget ran out (the future is dropped, i.e. cancelled).
+async fn with_budget<F: std::future::Future>(f: F) -> Option<F::Output> {
+    let (tx, rx) = tokio::sync::oneshot::channel::<()>();
+    std::thread::spawn(move || {
+        std::thread::sleep(std::time::Duration::from_secs(OP_BUDGET_SECS));
+        let _ = tx.send(());
+    });
+    tokio::select! {
+        r = f => Some(r),
+        _ = rx => None,
+    }
+}
+
 fn fifo(dir: &Path, t: usize) -> PathBuf {
     dir.join(format!("f{t}"))
 }
@@ -99,7 +116,8 @@ async fn run_case(k: usize, c: &[String]) -> Vec<String> {
     let mut fresh = 1usize;
     let mut released: std::collections::HashSet<usize> = std::collections::HashSet::new();
     let mut i = 0;
-    while i < ops.len() {
+    let mut stuck = false;
+    while i < ops.len() && !stuck {
         match ops[i].as_str() {
             "A" | "E" => {
                 // E: the job ends with an expansion error after its marker is written
@@ -113,8 +131,12 @@ async fn run_case(k: usize, c: &[String]) -> Vec<String> {
                     marker(&dir, t).display(),
                     tail
                 );
-                let _ = shell.run_string(script, &si, &params).await;
-                out.push(show_table(&shell));
+                if with_budget(shell.run_string(script, &si, &params)).await.is_none() {
+                    out.push(format!("!timeout:{}", ops[i]));
+                    stuck = true;
+                } else {
+                    out.push(show_table(&shell));
+                }
                 i += 1;
             }
             "F" => {
@@ -173,10 +195,14 @@ async fn run_case(k: usize, c: &[String]) -> Vec<String> {
                         release(&d, t);
                     }
                 });
-                let r = shell.jobs_mut().wait_all().await;
+                let r = with_budget(shell.jobs_mut().wait_all()).await;
                 let mut line = match r {
-                    Ok(jobs) => format!("ret={}", ids(&jobs.iter().collect::<Vec<_>>())),
-                    Err(_) => "ret=!err".to_string(),
+                    Some(Ok(jobs)) => format!("ret={}", ids(&jobs.iter().collect::<Vec<_>>())),
+                    Some(Err(_)) => "ret=!err".to_string(),
+                    None => {
+                        stuck = true;
+                        "ret=!timeout:W".to_string()
+                    }
                 };
                 // the property itself: when wait_all returns, every live job's effects are visible
                 let missing: Vec<String> = live
@@ -238,9 +264,13 @@ async fn run_case(k: usize, c: &[String]) -> Vec<String> {
                     "wait {}",
                     specs.iter().map(|s| format!("%{s}")).collect::<Vec<_>>().join(" ")
                 );
-                let st = match shell.run_string(cmd, &si, &params).await {
-                    Ok(r) => u8::from(r.exit_code).to_string(),
-                    Err(_) => "!err".to_string(),
+                let st = match with_budget(shell.run_string(cmd.clone(), &si, &params)).await {
+                    Some(Ok(r)) => u8::from(r.exit_code).to_string(),
+                    Some(Err(_)) => "!err".to_string(),
+                    None => {
+                        stuck = true;
+                        format!("!timeout:{cmd}")
+                    }
                 };
                 let mut line = format!("s={st}");
                 let missing: Vec<String> = targets
@@ -272,7 +302,9 @@ async fn run_case(k: usize, c: &[String]) -> Vec<String> {
         }
     })
     .await;
-    let _ = shell.jobs_mut().wait_all().await;
+    if !stuck {
+        let _ = with_budget(shell.jobs_mut().wait_all()).await;
+    }
     drop(shell);
     let _ = std::fs::remove_dir_all(&dir);
     out
